@@ -66,19 +66,36 @@ def run(cx):
         r.check(pm_calls == ["pinMode(7, 2)"], f"setup[{tag}]/INPUT_PULLUP", (em, em.func("emit")), f"pin configuration: {pm_calls}")
         g = l2.global_decls(res.text)
         r.check(g.get("__redu_button_prev_dev", ("", ""))[0] == "bool" and g.get("__redu_button_value_dev", ("", ""))[0] == "bool", f"globals[{tag}]/prev,value", (em, em.func("emit")), "button shadow globals missing")
-    # injection in parse(): one poll per button, sorted, prepended
+    # injection, decided on scripts through parse() (partial evaluation): every declared button - with or without a handler,
+    # declared before the loop or at the top of it - is polled exactly once at the head of the loop body, in sorted order,
+    # before any tick or user statement; a script without buttons gets no poll
     pf = pm.func("parse")
-    loc = Locals(pf)
-    bp = loc.defs.get("button_polls", [])
-    okp = len(bp) == 1 and norm(bp[0]) == "[ButtonPoll(name=name) for name in sorted(ctx.get('button_poll_names', set()))]"
-    r.check(okp, "parse/one-poll-per-button-sorted", (pm, pf), f"poll list is `{norm(bp[0]) if bp else '?'}`")
-    pre = [n for n in walk_local(pf) if isinstance(n, ast.Assign) and norm(n.targets[0]) == "loop_body" and "button_polls" in norm(n.value)]
-    r.check(len(pre) == 1 and norm(pre[0].value) == "button_polls + loop_body", "parse/polls-prepended-once", (pm, pf), "button polls must be prepended to the loop body exactly once")
-    # declaring a button registers its poll
     psl = pm.func("_parse_simple_lines")
-    decl_arm = [n for n in walk_local(psl) if isinstance(n, ast.Call) and call_name(n) == "ButtonDecl"]
-    reg = [n for n in walk_local(psl) if isinstance(n, ast.Call) and norm(n.func) == "button_poll_names.add"]
-    r.check(len(decl_arm) == 1 and len(reg) >= 1 and abs(reg[0].lineno - decl_arm[0].lineno) < 15, "parse/ButtonDecl-registers-poll", (pm, psl), "a Button declaration must register the button for polling")
+    head = "from Reduino.Actuators import Led\nfrom Reduino.Sensors import Button\nfrom Reduino.Displays import LCD\nfrom Reduino.Utils import sleep\nled = Led(13)\ndef on_x():\n    led.toggle()\n"
+    scripts = {
+        "two-buttons-and-an-animation": (head + "zeta = Button(7, on_click=on_x)\nalpha = Button(6)\nlcd = LCD(i2c_addr=0x27)\nlcd.animate('scroll', 0, 'hi', speed_ms=0)\nwhile True:\n    if alpha.is_pressed():\n        led.on()\n    sleep(5)\n", ["alpha", "zeta"]),
+        "button-used-only-in-loop": (head + "btn = Button(7)\nwhile True:\n    if btn.is_pressed():\n        led.on()\n", ["btn"]),
+        "button-with-handler-never-read": (head + "btn = Button(7, on_click=on_x)\nwhile True:\n    sleep(5)\n", ["btn"]),
+        "no-button": (head + "while True:\n    sleep(5)\n", []),
+        "three-buttons": (head + "c = Button(4, on_click=on_x)\na = Button(2, on_click=on_x)\nb = Button(3, on_click=on_x)\nwhile True:\n    sleep(1)\n", ["a", "b", "c"]),
+    }
+    for label, (src_, want_) in scripts.items():
+        try:
+            _it, out_ = pe.parse_source(src_)
+        except dl.Unsupported as e:
+            raise AnalysisError(f"parse() left the evaluable subset on script `{label}`: {e}")
+        if out_.kind != "return":
+            r.fail(f"parse/script[{label}]-accepted", (pm, pf), f"script `{label}` is rejected with {out_.value}")
+            continue
+        kinds_ = [(type(n_).__name__, getattr(n_, "name", None)) for n_ in list(out_.value.loop_body)]
+        lead = []
+        for k_ in kinds_:
+            if k_[0] != "ButtonPoll":
+                break
+            lead.append(k_[1])
+        later = [k_[1] for k_ in kinds_[len(lead):] if k_[0] == "ButtonPoll"]
+        in_setup = [getattr(n_, "name", None) for n_ in list(out_.value.setup_body) if type(n_).__name__ == "ButtonPoll"]
+        r.check(lead == want_ and not later and not in_setup, f"parse/script[{label}]-one-poll-per-button-first-sorted", (pm, pf), f"script `{label}`: loop_body begins with polls {lead} (later polls {later}, polls in setup {in_setup}); expected exactly {want_} at the head")
 
     # ---- C15-CACHED --------------------------------------------------------------------------
     r = cx.rule("C15-CACHED", "is_pressed() is translated to the cached sample (never a pin read) and registers the poll; no parser template other than the Core digital_read helper can produce digitalRead", floor=5)
